@@ -122,10 +122,19 @@ fn run(case: &Val) -> Val {
         };
         drops.lock().unwrap().clear();
         match &handle {
-            None => match log4rs::init_config(config) {
-                Ok(h) => handle = Some(h),
-                Err(_) => return Val::err(2),
-            },
+            None => {
+                // whatever the facade's global maximum was before log4rs is initialised (another library, user code,
+                // an earlier logger's leftover): initialisation installs the configuration's own maximum
+                let lgs = cfg.l()[2].l().len() + probes.len();
+                log::set_max_level(
+                    [log::LevelFilter::Off, log::LevelFilter::Error, log::LevelFilter::Warn, log::LevelFilter::Trace, log::LevelFilter::Info]
+                        [lgs % 5],
+                );
+                match log4rs::init_config(config) {
+                    Ok(h) => handle = Some(h),
+                    Err(_) => return Val::err(2),
+                }
+            }
             Some(h) => {
                 // a foreign write to the facade's global maximum (another library, user code) right
                 // before the reconfiguration: set_config installs the new configuration's own maximum
